@@ -214,6 +214,7 @@ type compiled struct {
 	ctxs     map[common.Address]bool   // statically known context addresses
 	miners   map[common.Address]bool   // contexts that execute STAKE/UNSTAKE
 	auths    []common.Address
+	noGuards bool // scratch scripts: no variant selectors (the block context is the executor's)
 }
 
 func compileTree(root *Node, chainID *big.Int) *compiled {
@@ -239,7 +240,7 @@ func push0(a *Asm, n int) {
 func (c *compiled) body(n *Node, ctx *common.Address, level int, chainID *big.Int) []byte {
 	a := &Asm{}
 	lEnd := -1
-	if isDead(n) { // variant selector: skip the body when bit ID of DIFFICULTY is set
+	if isDead(n) && !c.noGuards { // variant selector: skip the body when bit ID of DIFFICULTY is set
 		lEnd = a.NewLabel()
 		envBit(a, opDIFFICULTY, n.ID)
 		a.PushLabel(lEnd).Op(opJUMPI)
@@ -293,6 +294,9 @@ func (c *compiled) body(n *Node, ctx *common.Address, level int, chainID *big.In
 				}
 				c.deploy[addr] = c.body(ch, cctx, level+1, chainID)
 				lCall, lAfter := -1, -1
+				if ch.Kind == kSTATIC && c.noGuards {
+					panic("static call in a scratch script")
+				}
 				if ch.Kind == kSTATIC { // control variant: bit ID of GASPRICE set => plain CALL
 					lCall, lAfter = a.NewLabel(), a.NewLabel()
 					envBit(a, opGASPRICE, ch.ID)
@@ -370,7 +374,7 @@ func (c *compiled) body(n *Node, ctx *common.Address, level int, chainID *big.In
 		}
 	}
 	lOk := -1
-	if isFailEnd(n.End) { // control variant: bit ID of GASPRICE set => the frame succeeds
+	if isFailEnd(n.End) && !c.noGuards { // control variant: bit ID of GASPRICE set => the frame succeeds
 		lOk = a.NewLabel()
 		envBit(a, opGASPRICE, n.ID)
 		a.PushLabel(lOk).Op(opJUMPI)
@@ -693,12 +697,13 @@ func (g *gen) end(kind string, failP int) string {
 }
 
 // node generates a frame at the given level; ctxKnown: the context address is static.
-func (g *gen) node(kind string, level, maxLevel int, ctxKnown bool, ids *[]int) *Node {
+// funded: the frame that enters this one runs in a context with a balance.
+func (g *gen) node(kind string, level, maxLevel int, ctxKnown, funded bool, ids *[]int) *Node {
 	r := g.rng
 	n := &Node{ID: g.id(), Kind: kind, Ben: r.Intn(nEOA)}
 	*ids = append(*ids, n.ID)
 	if kind == kCALL || kind == kCALLCODE || isCreateKind(kind) || kind == kAUTHCALL {
-		if r.Intn(3) == 0 {
+		if r.Intn(3) == 0 && (funded || kind == kAUTHCALL) { // AUTHCALL is paid by the origin
 			n.Val = uint64(1 + r.Intn(9))
 		}
 	}
@@ -716,7 +721,7 @@ func (g *gen) node(kind string, level, maxLevel int, ctxKnown bool, ids *[]int) 
 			} else if k == kCALL || k == kSTATIC || k == kAUTHCALL {
 				known = true
 			}
-			ch := g.node(k, level+1, maxLevel, known, ids)
+			ch := g.node(k, level+1, maxLevel, known, ctxKnown, ids)
 			ch.End = g.end(k, 50)
 			if isCreateKind(k) && isFailEnd(ch.End) && ch.End != "revert" {
 				if eater { // at most one gas-burning failed creation per frame
@@ -742,7 +747,7 @@ func genRandomTree(rng *rand.Rand, custom bool) *Node {
 		}
 		g.nextID = -1
 		maxLevel := 1 + rng.Intn(4)
-		root := g.node(kind, 0, maxLevel, kind == kCALL, &ids)
+		root := g.node(kind, 0, maxLevel, kind == kCALL, true, &ids)
 		root.End = g.end(kind, 8)
 		if root.End == "selfdestruct" && kind == kCREATE {
 			root.End = "return"
